@@ -1,6 +1,9 @@
 import MicroHttp.Props.C12
+import MicroHttp.Props.C12Pop
 #print axioms MicroHttp.C12.first_completer
 #print axioms MicroHttp.C12.eof_keeps
 #print axioms MicroHttp.C12.failed_read_keeps
 #print axioms MicroHttp.C12.conservation
 #print axioms MicroHttp.C12.pop_moves
+#print axioms MicroHttp.C12.read_ignores_queue
+#print axioms MicroHttp.C12.pop_timing_irrelevant
